@@ -318,6 +318,14 @@ def check_struct_operand(sh):
       if bool(eq) != (x == packed) or bool(ne) != (x != packed):
         sh.violation("comparison-of-bits-with-a-bitstruct-of-the-same-width-ignores-the-value", {"bits": hex(x), "struct_packed": hex(packed),
                      "eq": repr(eq), "ne": repr(ne), "widths": [wa, wb]}, case=("structop", k)); return
+      # ... and the answer does not depend on which operand stands on the left
+      try: eq2, ne2 = s_ == bx, s_ != bx
+      except (TypeError, ValueError): sh.count("struct_vs_bits_comparisons_refused"); continue
+      sh.count("struct_vs_bits_comparisons")
+      if bool(eq2) != bool(eq) or bool(ne2) != bool(ne):
+        sh.violation("comparison-of-a-bitstruct-with-bits-depends-on-the-operand-order", {"bits": hex(x), "struct_packed": hex(packed),
+                     "bits_eq_struct": repr(eq), "struct_eq_bits": repr(eq2), "bits_ne_struct": repr(ne), "struct_ne_bits": repr(ne2), "widths": [wa, wb]},
+                     case=("structop-mirror", k)); return
 
 
 def run_shard(sh):
